@@ -39,9 +39,9 @@ type partioCase struct {
 	Sectors uint64 `json:"size_sectors"`
 	LSS     int    `json:"lss"`
 	PSS     int    `json:"pss"`
-	LenMode string `json:"reader_len"` // size-1 size size+1 zero
-	Chunk   string `json:"chunk"`      // whole one seven 513 dataeof
-	Op      string `json:"op"`         // write | copy
+	LenMode string `json:"reader_len"`            // size-1 size size+1 zero
+	Chunk   string `json:"chunk"`                 // whole one seven 513 dataeof
+	Op      string `json:"op"`                    // write | copy
 	CopyTo  string `json:"copy_target,omitempty"` // same bigger smaller
 }
 
